@@ -325,6 +325,11 @@ func runC16(ctx *h.Ctx) int {
 		k.Count("evaluations", 3)
 		if !plain.OK() || rerr != nil {
 			k.Count("rejected", 1)
+			if !plain.OK() {
+				rejectedValid(k, prog, plain, false)
+			} else {
+				acceptedUnmatched(k)
+			}
 			if marked.OK() != plain.OK() || nopath.OK() != plain.OK() {
 				k.Violation("accept-differs", fmt.Sprintf("acceptance depends on line markers: plain %q, markers %q, markers without path %q", plain.ErrString(), marked.ErrString(), nopath.ErrString()), nil)
 			}
@@ -418,44 +423,12 @@ func runC16(ctx *h.Ctx) int {
 				}
 			}
 		}
-		curLabel := ""
-		posInBlock := 0
-		curSwitch := 0
-		for i := range f.Lines {
-			l := &f.Lines[i]
-			switch l.Kind {
-			case asm.KLabel:
-				curLabel, posInBlock = l.Label, 0
-			case asm.KInstr:
-				if l.Op == "switch" {
-					if id, ok := ix.switches[l.Args]; ok {
-						curSwitch = id
-					}
-				}
-			}
-			if l.Kind != asm.KMarker {
-				if l.Kind == asm.KInstr {
-					posInBlock++
-				}
-				continue
-			}
-			if rawDone[i] {
-				continue
-			}
-			n := l.MLine
-			if l.MFile != wantFile {
-				k.Violation("marker-file", fmt.Sprintf("marker %q names file %q, expected %q", l.Text, l.MFile, wantFile), det)
-				return
-			}
-			if n < 1 || n > pr.Lines {
-				k.Violation("marker-range", fmt.Sprintf("marker %q: line number outside 1..%d", l.Text, pr.Lines), det)
-				return
-			}
-			if i+1 >= len(f.Lines) {
-				k.Violation("marker-last", "output ends with a marker", det)
-				return
-			}
-			nx := &f.Lines[i+1]
+		var curLabel string
+		var posInBlock, curSwitch int
+		// classify attributes an output line to the source construct it renders (0: unknown), given the parsing state
+		// (current label, position in its block, current switch) before that line; before = index of the line in front
+		// of it (in front of its marker when it has one), n = line named by its marker (0: none)
+		classify := func(nx *asm.Line, before int, n int) (int, string) {
 			id, what := 0, ""
 			switch nx.Kind {
 			case asm.KLabel:
@@ -469,8 +442,8 @@ func runC16(ctx *h.Ctx) int {
 				}
 			case asm.KInstr:
 				switch {
-				case nx.IsData() && i > 0 && f.Lines[i-1].Kind == asm.KLabel && ix.textItem[f.Lines[i-1].Label] != 0:
-					id, what = ix.textItem[f.Lines[i-1].Label], "text"
+				case nx.IsData() && before >= 0 && f.Lines[before].Kind == asm.KLabel && ix.textItem[f.Lines[before].Label] != 0:
+					id, what = ix.textItem[f.Lines[before].Label], "text"
 				case nx.IsData() && ix.textItem[curLabel] != 0 && strings.HasPrefix(nx.Op, ".") && nx.Op != ".2byte" && nx.Op != ".byte" && nx.Op != ".4byte" && nx.Op != ".align":
 					// a marker between the lines of one text block
 					id, what = ix.textItem[curLabel], "text-continuation"
@@ -547,6 +520,62 @@ func runC16(ctx *h.Ctx) int {
 					}
 				}
 			}
+			return id, what
+		}
+		for i := range f.Lines {
+			l := &f.Lines[i]
+			// presence: a line that renders a marker-bearing construct has its marker directly in front of it
+			if (l.Kind == asm.KInstr || l.Kind == asm.KLabel) && (i == 0 || f.Lines[i-1].Kind != asm.KMarker) {
+				before := i - 1
+				_, isAutoVarCmd := rp.AutoVars[l.Op]
+				// (the command of an AutoVar condition is emitted without a marker of its own: the marker sits in front
+				// of the comparison that follows it)
+				if id, what := classify(l, before, 0); id != 0 && what != "text-continuation" && ix.multi[strings.TrimSpace(l.Text)] == nil && !(what == "command" && isAutoVarCmd) {
+					txt := strings.TrimSpace(l.Text)
+					if (what == "mart-item" && txt == ".2byte ITEM_NONE") || (what == "movement-step" && (txt == "step_end" || strings.HasPrefix(txt, "."))) {
+						// (the terminator the compiler adds has no source line; `.align 2` belongs to the next block)
+					} else if what == "text" && l.Kind != asm.KLabel && before >= 0 && f.Lines[before].Kind == asm.KInstr {
+						// (only the first line of a text block carries the marker)
+					} else {
+						k.Violation("marker-missing", fmt.Sprintf("%s %q is emitted without a line marker in front of it (input path %q, -lm on)", what, strings.TrimSpace(l.Text), path), det)
+						return
+					}
+				}
+			}
+			switch l.Kind {
+			case asm.KLabel:
+				curLabel, posInBlock = l.Label, 0
+			case asm.KInstr:
+				if l.Op == "switch" {
+					if id, ok := ix.switches[l.Args]; ok {
+						curSwitch = id
+					}
+				}
+			}
+			if l.Kind != asm.KMarker {
+				if l.Kind == asm.KInstr {
+					posInBlock++
+				}
+				continue
+			}
+			if rawDone[i] {
+				continue
+			}
+			n := l.MLine
+			if l.MFile != wantFile {
+				k.Violation("marker-file", fmt.Sprintf("marker %q names file %q, expected %q", l.Text, l.MFile, wantFile), det)
+				return
+			}
+			if n < 1 || n > pr.Lines {
+				k.Violation("marker-range", fmt.Sprintf("marker %q: line number outside 1..%d", l.Text, pr.Lines), det)
+				return
+			}
+			if i+1 >= len(f.Lines) {
+				k.Violation("marker-last", "output ends with a marker", det)
+				return
+			}
+			nx := &f.Lines[i+1]
+			id, what := classify(nx, i-1, n)
 			if id == 0 {
 				k.Count("marker:unclassified", 1)
 				k.C.Inconclusive("marker %q precedes %q, which the monitor cannot attribute to a source construct", l.Text, strings.TrimSpace(nx.Text))
@@ -575,6 +604,7 @@ func runC16(ctx *h.Ctx) int {
 		k.Count("evaluations", 1)
 		if !plain.OK() {
 			k.Count("rejected", 1)
+			rejectedValid(k, prog, plain, false)
 			return
 		}
 		dir := workDir(k)
@@ -617,9 +647,16 @@ func runC16(ctx *h.Ctx) int {
 		k.Count("cli_stdin_outputs_without_markers", 1)
 		k.Nontrivial("cli", nm, len(pr.Src)/32)
 	})
+	if ctx.OnlySub == "" {
+		for _, c := range []string{"command", "label", "flag-operand", "var-operand", "defeated-operand", "autovar-operand", "switch-operand", "case", "mart-item", "mart-header", "movement-step", "movement-header", "text", "raw-line", "map-script-entry", "table-row"} {
+			if ctx.Counter("marker:"+c) == 0 {
+				ctx.Inconclusive("no marker of class %q was observed in front of its construct", c)
+			}
+		}
+	}
 	rejectGuard(ctx, 0.35)
 	return ctx.Finish(
-		"whole files with every construct kind under scrambled layouts (constructs spread over lines, comments/blank lines anywhere, raw keyword and back-tick on the same or different lines, CRLF), unique names per construct, input path with/without back-slashes or empty; compiled with -lm=false, -lm with path, -lm without path. Oracle: (a) -lm output minus marker lines == -lm=false output; (b) every marker names the escaped path and a line in 1..#lines; (c) the construct on the following line (command, label, flag/var/defeated/AutoVar operand, switch operand, case, mart item, movement step and headers, raw line, text block, map-script entry, table row), identified by its unique name or its position in its block, was written on a source line range containing that number; (d) no markers without a path; (e) the same through the binary: source on standard input with -lm=true gives the -lm=false output, with -i every marker names that file and the rest is the -lm=false output. distinct = (number of markers, source lines, items)",
+		"whole files with every construct kind under scrambled layouts (constructs spread over lines, comments/blank lines anywhere, raw keyword and back-tick on the same or different lines, CRLF), unique names per construct, input path with/without back-slashes or empty; compiled with -lm=false, -lm with path, -lm without path. Oracle: (a) -lm output minus marker lines == -lm=false output; (b) every marker names the escaped path and a line in 1..#lines; (c) the construct on the following line (command, label, flag/var/defeated/AutoVar operand, switch operand, case, mart item, movement step and headers, raw line, text block, map-script entry, table row), identified by its unique name or its position in its block, was written on a source line range containing that number; (d) no markers without a path; (c2) presence: every line that renders a command, label, case, mart item, movement step, text, map-script entry or table row has a marker directly in front of it, and every marker class must have been observed; (e) the same through the binary: source on standard input with -lm=true gives the -lm=false output, with -i every marker names that file and the rest is the -lm=false output. distinct = (number of markers, source lines, items)",
 		ctx.N(500, 5000),
 		[]string{"for multi-line constructs any line of the construct is accepted", "raw content never contains lines that look like markers"})
 }
